@@ -524,6 +524,15 @@ def keyOf (n : Name) (t : RType) : Key := (n.labels.map Name.lowerLabel, t.code)
 def mapSet (m : List (Key × RSet)) (k : Key) (v : RSet) : List (Key × RSet) :=
   m.map fun (k', v') => if k' = k then (k', v) else (k', v')
 
+/-- the `self.records.entry(RrKey::new(..))` part of `Context::insert` -/
+def mapInsert (m : List (Key × RSet)) (t : RType) (record : Rec) : ZR (List (Key × RSet)) :=
+  let key := keyOf record.name t
+  match m.lookup key with
+  | some rs =>
+    if t = .soa then .err                       -- "SOA is already specified"
+    else (rs.insert t record).bind fun rs' => .ok (mapSet m key rs')
+  | none => .ok (m ++ [(key, RSet.ofRec t record)])
+
 /-- `Context::insert` -/
 def Ctx.insert (cx : Ctx) (parts : List Str) : ZR Ctx :=
   match cx.rtype with
@@ -536,16 +545,8 @@ def Ctx.insert (cx : Ctx) (parts : List Str) : ZR Ctx :=
         match cx.ttl.take with
         | (none, _) => .err
         | (some ttl, ttl') =>
-          let name := { name with fqdn := true }
-          let record : Rec := { name := name, cls := cx.cls, ttl := ttl, data := rdata }
-          let key := keyOf name t
-          match cx.records.lookup key with
-          | some rs =>
-            if t = .soa then .err
-            else (rs.insert t record).bind fun rs' =>
-              .ok { cx with ttl := ttl', records := mapSet cx.records key rs' }
-          | none =>
-            .ok { cx with ttl := ttl', records := cx.records ++ [(key, RSet.ofRec t record)] }
+          let record : Rec := { name := { name with fqdn := true }, cls := cx.cls, ttl := ttl, data := rdata }
+          (mapInsert cx.records t record).bind fun m => .ok { cx with ttl := ttl', records := m }
 
 inductive PState where
   | startLine | ttlClassType | ttl | origin
